@@ -1,3 +1,3 @@
 SPECIFICATION Spec
-INVARIANTS Emit Sane
+INVARIANTS Emit NoBad Clauses Ordered
 CHECK_DEADLOCK FALSE
